@@ -100,6 +100,132 @@ pub fn cmd_cert(arg: &str) -> String {
 
 pub fn cmd_envelope(_: &str) -> String { "TODO".into() }
 pub fn cmd_envdec(_: &str) -> String { "TODO".into() }
-pub fn cmd_stats(_: &str) -> String { "TODO".into() }
-pub fn cmd_merge(_: &str) -> String { "TODO".into() }
+// ---------------------------------------------------------------- statistics
+use roughenough::stats::{AggregatedStats, ClientStats, PerClientStats, Reporter, ServerStats, StatsQueue};
+use std::net::{IpAddr, Ipv4Addr};
+use std::sync::Arc;
+
+fn ip(a: u32) -> IpAddr {
+    IpAddr::from(Ipv4Addr::from(a))
+}
+
+fn apply_op(s: &mut dyn ServerStats, op: &str) {
+    let (k, rest) = op.split_at(1);
+    let mut it = rest.splitn(2, ':');
+    let a: u32 = it.next().unwrap().parse().unwrap();
+    let n: usize = it.next().map(|x| x.parse().unwrap()).unwrap_or(0);
+    let addr = ip(a);
+    match k {
+        "i" => s.add_ietf_request(&addr),
+        "c" => s.add_classic_request(&addr),
+        "x" => s.add_invalid_request(&addr, &roughenough::Error::InvalidRequest),
+        "h" => s.add_health_check(&addr),
+        "r" => s.add_rfc_response(&addr, n),
+        "k" => s.add_classic_response(&addr, n),
+        "f" => s.add_failed_send_attempt(&addr),
+        "t" => s.add_retried_send_attempt(&addr),
+        _ => panic!("bad op"),
+    }
+}
+
+fn totals(s: &dyn ServerStats) -> String {
+    format!(
+        "T={},{},{},{},{},{},{},{},{} V={} R={} U={}",
+        s.num_rfc_requests(),
+        s.num_classic_requests(),
+        s.total_invalid_requests(),
+        s.total_health_checks(),
+        s.num_rfc_responses_sent(),
+        s.num_classic_responses_sent(),
+        s.total_bytes_sent(),
+        s.total_failed_send_attempts(),
+        s.total_retried_send_attempts(),
+        s.total_valid_requests(),
+        s.total_responses_sent(),
+        s.total_unique_clients()
+    )
+}
+
+fn render_clients(mut v: Vec<ClientStats>) -> String {
+    v.sort_by_key(|c| match c.ip_addr {
+        IpAddr::V4(a) => u32::from(a),
+        _ => 0,
+    });
+    let items: Vec<String> = v
+        .iter()
+        .map(|c| {
+            let a = match c.ip_addr {
+                IpAddr::V4(a) => u32::from(a),
+                _ => 0,
+            };
+            format!(
+                "{}:{}/{}/{}/{}/{}/{}/{}/{}/{}",
+                a, c.rfc_requests, c.classic_requests, c.invalid_requests, c.health_checks,
+                c.rfc_responses_sent, c.classic_responses_sent, c.bytes_sent,
+                c.failed_send_attempts, c.retried_send_attempts
+            )
+        })
+        .collect();
+    if items.is_empty() { "-".into() } else { items.join(";") }
+}
+
+/// stats <pc|agg> <limit> <op,op,...>
+pub fn cmd_stats(arg: &str) -> String {
+    let p: Vec<&str> = arg.trim().splitn(3, ' ').collect();
+    let kind = p[0].to_string();
+    let limit: usize = p[1].parse().unwrap();
+    let ops: Vec<String> = p.get(2).unwrap_or(&"").split(',').filter(|s| !s.is_empty()).map(|s| s.to_string()).collect();
+    let r = guarded(move || {
+        if kind == "pc" {
+            let mut s = PerClientStats::with_limit(limit);
+            for op in &ops {
+                apply_op(&mut s, op);
+            }
+            let clients: Vec<ClientStats> = s.iter().map(|(_, c)| *c).collect();
+            // stats_for_client must agree with the iterator
+            for c in &clients {
+                assert!(s.stats_for_client(&c.ip_addr) == Some(c));
+            }
+            format!("{} O={} C={}", totals(&s), s.num_overflows(), render_clients(clients))
+        } else {
+            let mut s = AggregatedStats::new();
+            for op in &ops {
+                apply_op(&mut s, op);
+            }
+            format!("{} O=0 C=-", totals(&s))
+        }
+    });
+    r.unwrap_or_else(|| "PANIC".into())
+}
+
+/// merge <limit> <seg>|<seg>|...  : one PerClientStats per segment, snapshot (iter) pushed on the
+/// queue, Reporter::receive_client_stats merges them
+pub fn cmd_merge(arg: &str) -> String {
+    let p: Vec<&str> = arg.trim().splitn(2, ' ').collect();
+    let limit: usize = p[0].parse().unwrap();
+    let segs: Vec<Vec<String>> = p
+        .get(1)
+        .unwrap_or(&"")
+        .split('|')
+        .map(|s| s.split(',').filter(|x| !x.is_empty()).map(|x| x.to_string()).collect())
+        .collect();
+    let r = guarded(move || {
+        let q = Arc::new(StatsQueue::new(segs.len().max(1)));
+        for seg in &segs {
+            let mut s = PerClientStats::with_limit(limit);
+            for op in seg {
+                apply_op(&mut s, op);
+            }
+            let snap: Vec<ClientStats> = s.iter().map(|(_, c)| *c).collect();
+            if !snap.is_empty() {
+                q.force_push(snap);
+            }
+        }
+        let mut rep = Reporter::new(q, &Duration::from_secs(600), None);
+        rep.receive_client_stats();
+        format!("C={}", render_clients(rep.merged_client_stats()))
+    });
+    r.unwrap_or_else(|| "PANIC".into())
+}
+
 pub fn cmd_grease(_: &str) -> String { "TODO".into() }
